@@ -210,6 +210,30 @@ LVALS = ["0", "80000000000000000000", "3fff8000000000000000", "bfff8000000000000
          "3ffd999999999999999a"]
 
 
+def lcanon(m, r):
+    if r.startswith("!"):
+        return r
+    v = int(r, 16)
+    if m["sig"].endswith("_l") and ((v >> 64) & 0x7fff) == 0x7fff and (v & 0x7fffffffffffffff):
+        return "nan"
+    if m["sig"].endswith("_d") and (v & 0x7ff0000000000000) == 0x7ff0000000000000 and (v & 0xfffffffffffff):
+        return "nan"
+    if m["sig"].endswith("_f") and (v & 0x7f800000) == 0x7f800000 and (v & 0x7fffff):
+        return "nan"
+    return f"{v:x}"
+
+
+def fcanon(m, r):
+    if r.startswith("!"):
+        return r
+    v = int(r, 16)
+    if m["sig"].endswith("_f") and (v & 0x7f800000) == 0x7f800000 and (v & 0x7fffff):
+        return "nan"
+    if m["sig"].endswith("_d") and (v & 0x7ff0000000000000) == 0x7ff0000000000000 and (v & 0xfffffffffffff):
+        return "nan"
+    return f"{v:x}"
+
+
 def expected_key(meta, a, b):
     key = meta["key"]
     if key.endswith(":swap"):
@@ -242,132 +266,158 @@ def main():
     g = build_funcs(ck, imms, quick)
     work = os.path.join(VERIF, ".cache", f"c02_{os.getpid()}")
     os.makedirs(work, exist_ok=True)
-    mir = os.path.join(work, "grid.mir")
-    open(mir, "w").write(g.text())
     iv = int_grid(ck, quick)
     dv, fv = fp_grids(ck, quick)
-    plan = ["ivals " + " ".join(f"{x:x}" for x in iv), "dvals " + " ".join(f"{x:x}" for x in dv),
-            "fvals " + " ".join(f"{x:x}" for x in fv), "lvals " + " ".join(LVALS)]
-    for fn, m in g.meta.items():
-        plan.append(f"grid {fn} {m['sig']} {m['dom'] if m['fixed_b'] is None else 'any'}")
+    grids = ["ivals " + " ".join(f"{x:x}" for x in iv), "dvals " + " ".join(f"{x:x}" for x in dv),
+             "fvals " + " ".join(f"{x:x}" for x in fv), "lvals " + " ".join(LVALS)]
     ck.log(f"{len(g.meta)} functions, grid {len(iv)} ints, {len(dv)} doubles, {len(fv)} floats")
-    p = subprocess.run([exe, ",".join(ENGINES), mir, "-q"], input="\n".join(plan) + "\n", stdout=subprocess.PIPE,
-                       stderr=subprocess.PIPE, text=True)
-    lines = p.stdout.split("\n")
-    if p.returncode != 0 or not lines or not lines[0].startswith("H "):
-        ck.broken_ties.append({"kind": "harness-run", "rc": p.returncode, "out": p.stdout[-800:], "err": p.stderr[-800:]})
-        ck.finish()
-    evals = []   # (fname, a, b, results list or single)
-    for ln in lines[1:]:
-        if ln.startswith("E "):
-            ck.broken_ties.append({"kind": "harness-error", "line": ln})
-            continue
-        if not ln.startswith("R "):
-            continue
-        left, right = ln[2:].split(" | ")
-        lt = left.split()
-        fn = lt[0]
-        m = g.meta[fn]
-        a = int(lt[1], 16)
-        b = int(lt[2], 16) if len(lt) > 2 else (m["fixed_b"] or 0)
-        if m["fixed_b"] is not None and not in_dom(m["dom"], *((b, a) if m["key"].endswith(":swap") else (a, b))):
-            continue
-        rs = right.split()
-        evals.append((fn, a, b, rs))
-    # long double reference values (native C in the harness)
-    ldev = [(i, e) for i, e in enumerate(evals) if g.meta[e[0]]["key"].startswith("ldbl:")]
-    ldexp = {}
-    if ldev:
-        rplan = "".join(f"ref {g.meta[fn]['key'][5:]} {a:x} {b:x}\n" for _, (fn, a, b, rs) in ldev)
-        pr = subprocess.run([exe, "interp", mir, "-q"], input=rplan, stdout=subprocess.PIPE, stderr=subprocess.PIPE, text=True)
-        nl = [l.split()[2] for l in pr.stdout.split("\n") if l.startswith("N ")]
-        if len(nl) != len(ldev):
-            ck.broken_ties.append({"kind": "ld-reference", "got": len(nl), "want": len(ldev), "err": pr.stderr[-300:], "rc": pr.returncode,
-                                   "next_line": rplan.split("\n")[len(nl)][:100], "tail": pr.stdout[-200:],
-                                   "non_n": [l for l in pr.stdout.split("\n") if not l.startswith("N ")][:6]})
-        else:
-            ldexp = {i: v for (i, _), v in zip(ldev, nl)}
-    # oracle
-    oin = []
-    for fn, a, b, rs in evals:
-        k, x, y = expected_key(g.meta[fn], a, b)
-        k2 = k[:-4] if k.endswith(":neg") else k
-        oin.append(f"{k2} {x:x} {y:x}" if not k2.startswith("ldbl:") else "ext:8:1 0 0")
-    rc, out, err = ck.drv("mirdrv_c02", [], "\n".join(oin) + "\n")
-    exp = out.split("\n")
-    if rc != 0 or len(exp) < len(evals):
-        ck.broken_ties.append({"kind": "oracle-run", "rc": rc, "err": err[-500:]})
-        ck.finish()
+    # chunks: all shapes of one semantic key stay together (so distinct (key,a,b) counts add up), bounded size
+    bykey = collections.OrderedDict()
+    for fn, m in g.meta.items():
+        k = m["key"]
+        for suf in (":swap", ":neg"):
+            if k.endswith(suf):
+                k = k[: -len(suf)]
+        bykey.setdefault(k, []).append(fn)
+    chunks, cur = [], []
+    limit = 60 if quick else 16
+    for k, fns in bykey.items():
+        if cur and len(cur) + len(fns) > limit:
+            chunks.append(cur)
+            cur = []
+        cur += fns
+    if cur:
+        chunks.append(cur)
     dist = collections.Counter()
     shapes = collections.Counter()
-    nontriv = set()
     bad = collections.OrderedDict()
-    n_undef = 0
-    for idx, ((fn, a, b, rs), e) in enumerate(zip(evals, exp)):
-        m = g.meta[fn]
-        key = m["key"]
-        if key.startswith("ldbl:"):
-            if idx not in ldexp:
+    tot = {"evals": 0, "nontriv": 0, "undef": 0}
+    samples = []
+    import threading
+    lock = threading.Lock()
+
+    def do_chunk(ci, fns):
+        mir = os.path.join(work, f"grid{ci}.mir")
+        open(mir, "w").write("m: module\nexport " + ", ".join(fns) + "\n" + "".join(g.funcs[int(f[1:]) - 1] for f in fns) + "endmodule\n")
+        plan = list(grids) + [f"grid {fn} {g.meta[fn]['sig']} {g.meta[fn]['dom'] if g.meta[fn]['fixed_b'] is None else 'any'}" for fn in fns]
+        p = subprocess.run([exe, ",".join(ENGINES), mir, "-q"], input="\n".join(plan) + "\n", stdout=subprocess.PIPE,
+                           stderr=subprocess.PIPE, text=True)
+        lines = p.stdout.split("\n")
+        if p.returncode != 0 or not lines or not lines[0].startswith("H "):
+            with lock:
+                ck.broken_ties.append({"kind": "harness-run", "rc": p.returncode, "chunk": fns[:3], "out": p.stdout[-600:], "err": p.stderr[-600:]})
+            return
+        evals = []
+        for ln in lines[1:]:
+            if ln.startswith("E "):
+                with lock:
+                    ck.broken_ties.append({"kind": "harness-error", "line": ln})
                 continue
-            e = ldexp[idx]
-        dist[key.split(":")[0]] += 1
-        shapes[m["shape"]] += 1
-        if e == "undef":
-            n_undef += 1
-            continue
-        if e in ("bad-key", "bad-line"):
-            ck.broken_ties.append({"kind": "oracle-key", "key": key})
-            break
-        want = e
-        if key.startswith("ldbl:"):
-            def lcanon(r):
-                if r.startswith("!"):
-                    return r
-                v = int(r, 16)
-                if m["sig"].endswith("_l") and ((v >> 64) & 0x7fff) == 0x7fff and (v & 0x7fffffffffffffff):
-                    return "nan"
-                if m["sig"].endswith("_d") and (v & 0x7ff0000000000000) == 0x7ff0000000000000 and (v & 0xfffffffffffff):
-                    return "nan"
-                if m["sig"].endswith("_f") and (v & 0x7f800000) == 0x7f800000 and (v & 0x7fffff):
-                    return "nan"
-                return f"{v:x}"
-            want = lcanon(want)
-            got = [lcanon(r.lstrip("=")) for r in rs]
-        elif key.startswith("fp:"):
-            def canon(r):
-                kk = key[3:]
-                isf = m["sig"].endswith("_f")
-                isd = m["sig"].endswith("_d")
-                if r.startswith("!"):
-                    return r
-                v = int(r, 16)
-                if isf and (v & 0x7f800000) == 0x7f800000 and (v & 0x7fffff):
-                    return "nan"
-                if isd and (v & 0x7ff0000000000000) == 0x7ff0000000000000 and (v & 0xfffffffffffff):
-                    return "nan"
-                return f"{v:x}"
-            got = [canon(r.lstrip("=")) for r in rs]
-        else:
-            got = [r.lstrip("=") for r in rs]
-        nontriv.add((key, a, b))
-        if any(x != want for x in got):
-            names = ENGINES if len(got) > 1 else ["all"]
-            wrong = [n for n, x in zip(names, got) if x != want]
-            sigk = (key, tuple(wrong))
-            if sigk not in bad:
-                bad[sigk] = {"func": fn, "key": key, "shape": m["shape"], "a": f"{a:x}", "b": f"{b:x}", "documented": want,
-                             "observed": dict(zip(names, got)), "count": 0,
-                             "mir": g.funcs[int(fn[1:]) - 1]}
-            bad[sigk]["count"] += 1
-    ck.cov["evaluations"] = len(evals) * len(ENGINES)
-    ck.cov["distinct_nontrivial"] = len(nontriv)
+            if not ln.startswith("R "):
+                continue
+            left, right = ln[2:].split(" | ")
+            lt = left.split()
+            fn = lt[0]
+            m = g.meta[fn]
+            a = int(lt[1], 16)
+            b = int(lt[2], 16) if len(lt) > 2 else (m["fixed_b"] or 0)
+            if m["fixed_b"] is not None and not in_dom(m["dom"], *((b, a) if m["key"].endswith(":swap") else (a, b))):
+                continue
+            evals.append((fn, a, b, right.split()))
+        del lines
+        ldev = [(i, e) for i, e in enumerate(evals) if g.meta[e[0]]["key"].startswith("ldbl:")]
+        ldexp = {}
+        if ldev:
+            rplan = "".join(f"ref {g.meta[fn]['key'][5:]} {a:x} {b:x}\n" for _, (fn, a, b, rs) in ldev)
+            pr = subprocess.run([exe, "interp", mir, "-q"], input=rplan, stdout=subprocess.PIPE, stderr=subprocess.PIPE, text=True)
+            nl = [l.split()[2] for l in pr.stdout.split("\n") if l.startswith("N ")]
+            if len(nl) != len(ldev):
+                with lock:
+                    ck.broken_ties.append({"kind": "ld-reference", "got": len(nl), "want": len(ldev), "err": pr.stderr[-300:]})
+            else:
+                ldexp = {i: v for (i, _), v in zip(ldev, nl)}
+        oin = []
+        for fn, a, b, rs in evals:
+            k, x, y = expected_key(g.meta[fn], a, b)
+            k2 = k[:-4] if k.endswith(":neg") else k
+            oin.append(f"{k2} {x:x} {y:x}" if not k2.startswith("ldbl:") else "ext:8:1 0 0")
+        rc, out, err = ck.drv("mirdrv_c02", [], "\n".join(oin) + "\n")
+        exp = out.split("\n")
+        del oin
+        if rc != 0 or len(exp) < len(evals):
+            with lock:
+                ck.broken_ties.append({"kind": "oracle-run", "rc": rc, "err": err[-500:]})
+            return
+        ldist, lshapes, lbad = collections.Counter(), collections.Counter(), collections.OrderedDict()
+        nontriv = set()
+        n_undef = 0
+        for idx, ((fn, a, b, rs), e) in enumerate(zip(evals, exp)):
+            m = g.meta[fn]
+            key = m["key"]
+            if key.startswith("ldbl:"):
+                if idx not in ldexp:
+                    continue
+                e = ldexp[idx]
+            ldist[key.split(":")[0]] += 1
+            lshapes[m["shape"]] += 1
+            if e == "undef":
+                n_undef += 1
+                continue
+            if e in ("bad-key", "bad-line"):
+                with lock:
+                    ck.broken_ties.append({"kind": "oracle-key", "key": key})
+                break
+            want = e
+            if key.startswith("ldbl:"):
+                want = lcanon(m, want)
+                got = [lcanon(m, r.lstrip("=")) for r in rs]
+            elif key.startswith("fp:"):
+                got = [fcanon(m, r.lstrip("=")) for r in rs]
+            else:
+                got = [r.lstrip("=") for r in rs]
+            nontriv.add((key, a, b))
+            if any(x != want for x in got):
+                names = ENGINES if len(got) > 1 else ["all"]
+                wrong = [n for n, x in zip(names, got) if x != want]
+                sigk = (key, tuple(wrong))
+                if sigk not in lbad:
+                    lbad[sigk] = {"func": fn, "key": key, "shape": m["shape"], "a": f"{a:x}", "b": f"{b:x}", "documented": want,
+                                  "observed": dict(zip(names, got)), "count": 0, "mir": g.funcs[int(fn[1:]) - 1]}
+                lbad[sigk]["count"] += 1
+        with lock:
+            dist.update(ldist)
+            shapes.update(lshapes)
+            tot["evals"] += len(evals)
+            tot["nontriv"] += len(nontriv)
+            tot["undef"] += n_undef
+            for kx, vx in lbad.items():
+                if kx in bad:
+                    bad[kx]["count"] += vx["count"]
+                else:
+                    bad[kx] = vx
+            if len(samples) < 6 and evals:
+                fn, a, b, rs = evals[len(evals) // 2]
+                samples.append({"func": g.funcs[int(fn[1:]) - 1].strip().split("\n")[2:-1], "a": f"{a:x}", "b": f"{b:x}", "result": rs})
+        try:
+            os.remove(mir)
+        except OSError:
+            pass
+
+    from concurrent.futures import ThreadPoolExecutor
+    with ThreadPoolExecutor(max_workers=12 if not quick else 8) as ex:
+        list(ex.map(lambda t: do_chunk(*t), enumerate(chunks)))
+    n_undef = tot["undef"]
+    nontriv_n = tot["nontriv"]
+    n_evals = tot["evals"]
+    for smp in samples:
+        ck.sample(smp)
+    ck.cov["evaluations"] = n_evals * len(ENGINES)
+    ck.cov["distinct_nontrivial"] = nontriv_n
     ck.cov["rule"] = ("one-instruction MIR functions per (opcode, operand shape) run over the boundary grid under "
                       + ",".join(ENGINES) + "; a case is (semantic key, a, b); non-trivial = inside the documented domain "
                       "(result defined) and compared with the Lean specification; distinct = distinct (key,a,b)")
     ck.cov["distribution"] = {"by_kind": dict(dist), "by_shape": dict(shapes), "functions": len(g.meta),
-                              "outside_domain_skipped": n_undef, "grid_ints": len(iv), "engines": ENGINES}
-    for (fn, a, b, rs) in evals[:: max(1, len(evals) // 6)][:6]:
-        ck.sample({"func": g.funcs[int(fn[1:]) - 1].strip().split("\n")[2:-2], "a": f"{a:x}", "b": f"{b:x}", "result": rs})
+                              "outside_domain_skipped": n_undef, "grid_ints": len(iv), "engines": ENGINES, "chunks": len(chunks)}
     ck.cov["exhaustive"] = False
     ck.assumptions += ["gcc-compiled mir-interp.c implements the C operators as two's-complement wrap-around (macroSem)",
                        "floating point compared with Lean's native Float/Float32 (IEEE via the same CPU); NaN payloads ignored",
